@@ -25,6 +25,7 @@ CONSTANTS
   CtcMinFeatures,
   CtcSameName,  \* BOOLEAN: every constraint is called "c1" (readers that name constraints after their text do this)
   CtcGrow,    \* walks only: how many times the last constraint may be grown one level deeper
+  CtcEqShape, \* BOOLEAN: also every (p => q) and (r => s) over literals
   CtcArith,   \* BOOLEAN: also comparison / arithmetic / aggregate constraints
   Fmt,        \* "" or a format: emit only models inside that format's fragment
   MaxLevel,   \* bound on behaviour length (safety net)
@@ -102,7 +103,8 @@ Step ==
   \/ \E i \in 1..N, k \in DOMAIN AttrNames, v \in AttrVals : AddAttribute(i, k, v)
   \/ /\ "ctc" \in Axes /\ Len(model.ctcs) < MaxCtc /\ CtcReady
      /\ \E t \in TreesOver(Names(model), CtcBinOps, CtcDepth)
-                 \cup (IF CtcArith THEN ArithTrees(Names(model)) ELSE {}) : AddConstraint(t)
+                 \cup (IF CtcArith THEN ArithTrees(Names(model)) ELSE {})
+                 \cup (IF CtcEqShape THEN EqShapeTrees(Names(model)) ELSE {}) : AddConstraint(t)
 
 \* Random larger models without -simulate (which would evaluate - and print - every sibling):
 \* each walk takes ONE seeded random step per state, so a walk is a single behaviour and every
